@@ -1610,6 +1610,49 @@ def _norm_simple(stmts, ctx):
                     stmts[i:i + 1] = [init, loop_]
                     changed = True
                     continue
+            # if t: def f(a): A        else: f = g   (or another def f(a): B)       ->   def f(a): if t: A else: return g(a)
+            # (t and g plain locals bound once: the test gives the same answer whenever f is called)
+            if isinstance(st, ast.If) and isinstance(st.test, ast.Name) and len(st.body) == 1 and len(st.orelse) == 1 \
+                    and ctx.get("root") is not None and not ctx.get("final"):
+                da, db = st.body[0], st.orelse[0]
+                if isinstance(da, ast.Assign) or (isinstance(da, ast.FunctionDef) and isinstance(db, ast.FunctionDef) and False):
+                    pass
+                swap_arms = False
+                if not isinstance(da, ast.FunctionDef) and isinstance(db, ast.FunctionDef):
+                    da, db, swap_arms = db, da, True
+                if isinstance(da, ast.FunctionDef) and not da.decorator_list \
+                        and not any(isinstance(n_, (ast.Yield, ast.YieldFrom)) for n_ in ast.walk(da)):
+                    a_ = da.args
+                    plain = not (a_.vararg or a_.kwarg or a_.kwonlyargs or a_.posonlyargs or a_.defaults)
+                    root_ = ctx["root"]
+                    once = lambda nm: sum(1 for n_ in ast.walk(root_) if (isinstance(n_, ast.Name) and n_.id == nm and isinstance(
+                        n_.ctx, (ast.Store, ast.Del))) or (isinstance(n_, FuncTypes) and n_ is not root_ and n_.name == nm)
+                        or (isinstance(n_, ast.arg) and n_.arg == nm)) == 1
+                    other = None
+                    if isinstance(db, ast.Assign) and len(db.targets) == 1 and isinstance(db.targets[0], ast.Name) \
+                            and db.targets[0].id == da.name and isinstance(db.value, ast.Name) and once(db.value.id):
+                        other = [ast.Return(value=ast.Call(func=ast.Name(id=db.value.id, ctx=ast.Load()),
+                                                           args=[ast.Name(id=x_.arg, ctx=ast.Load()) for x_ in a_.args], keywords=[]),
+                                            lineno=st.lineno, col_offset=0)]
+                    elif isinstance(db, ast.FunctionDef) and db.name == da.name and not db.decorator_list \
+                            and ast.dump(db.args) == ast.dump(a_):
+                        other = list(db.body)
+                    binds_f = sum(1 for n_ in ast.walk(root_) if (isinstance(n_, ast.Name) and n_.id == da.name and isinstance(
+                        n_.ctx, (ast.Store, ast.Del))) or (isinstance(n_, FuncTypes) and n_ is not root_ and n_.name == da.name))
+                    if plain and other is not None and once(st.test.id) and binds_f == 2:
+                        inner_if = ast.If(test=ast.Name(id=st.test.id, ctx=ast.Load()),
+                                          body=list(da.body) if not swap_arms else other,
+                                          orelse=other if not swap_arms else list(da.body), lineno=st.lineno, col_offset=0)
+                        nf = ast.FunctionDef(name=da.name, args=a_, body=[inner_if], decorator_list=[], returns=None,
+                                             type_comment=None, lineno=st.lineno, col_offset=0)
+                        try:
+                            nf.type_params = []
+                        except Exception:
+                            pass
+                        ast.fix_missing_locations(nf)
+                        stmts[i] = nf
+                        changed = True
+                        continue
             # x = <call-free arithmetic over int-typed names> (x bound once, every use later in this block, operands not
             # re-bound on the way): written out at its uses - ints have no identity worth keeping
             if isinstance(st, ast.Assign) and len(st.targets) == 1 and isinstance(st.targets[0], ast.Name) \
@@ -2561,6 +2604,18 @@ def _norm_region(stmts, kind, ctx):
                 and all(_always_leaves(h.body) for h in st.handlers) and i + 1 < len(stmts) \
                 and isinstance(stmts[i + 1], ast.Return) and (stmts[i + 1].value is None or isinstance(
                     stmts[i + 1].value, (ast.Constant, ast.Name))) and not _always_leaves(st.body):
+            st.body = list(st.body) + [stmts[i + 1]]
+            stmts = stmts[:i + 1] + stmts[i + 2:]
+            break
+    # with X: BODY  ;  return <literal or name>     ->   the return moves to the end of BODY (leaving the block by return or
+    # by falling off its end runs the same __exit__; a plain name has the same value before and after it)
+    for i, st in enumerate(stmts):
+        if isinstance(st, ast.With) and i + 1 < len(stmts) and isinstance(stmts[i + 1], ast.Return) \
+                and (stmts[i + 1].value is None or isinstance(stmts[i + 1].value, (ast.Constant, ast.Name))) \
+                and not _always_leaves(st.body) \
+                and not (isinstance(stmts[i + 1].value, ast.Name) and any(
+                    isinstance(v_, ast.Name) and v_.id == stmts[i + 1].value.id for it_ in st.items
+                    if it_.optional_vars is not None for v_ in ast.walk(it_.optional_vars))):
             st.body = list(st.body) + [stmts[i + 1]]
             stmts = stmts[:i + 1] + stmts[i + 2:]
             break
